@@ -104,6 +104,7 @@ func (c *core) OnSessionClose(ctx *gortsplib.ServerHandlerOnSessionCloseCtx) {
 	} else {
 		delete(c.sessState, ctx.Session)
 	}
+	c.sessClosed[ctx.Session] = true
 	c.mu.Unlock()
 }
 
@@ -288,7 +289,7 @@ func makeHandler(subset string, c *core) gortsplib.ServerHandler {
 
 // ---- goroutine signatures ----
 
-var reFrameArgs = regexp.MustCompile(`\(.*\)$`)
+var reFrameArgs = regexp.MustCompile(`\([^()]*\)$`)
 
 // goroutineSignatures returns the multiset of goroutines that have a gortsplib frame, each reduced
 // to the list of its gortsplib function names (innermost first).
@@ -305,25 +306,34 @@ func goroutineSignatures() map[string]int {
 	out := map[string]int{}
 	for _, g := range strings.Split(string(buf), "\n\n") {
 		lines := strings.Split(g, "\n")
-		var fns []string
+		outer, created := "", ""
 		for _, l := range lines[1:] {
-			if strings.HasPrefix(l, "\t") || strings.HasPrefix(l, "created by ") {
+			if strings.HasPrefix(l, "\t") {
+				continue
+			}
+			if strings.HasPrefix(l, "created by ") {
+				l = strings.TrimPrefix(l, "created by ")
+				if i := strings.Index(l, " in goroutine"); i >= 0 {
+					l = l[:i]
+				}
+				if strings.Contains(l, "bluenviron/gortsplib") {
+					created = strings.TrimPrefix(l, "github.com/bluenviron/gortsplib/v5")
+				}
 				continue
 			}
 			if !strings.Contains(l, "bluenviron/gortsplib") {
 				continue
 			}
 			l = reFrameArgs.ReplaceAllString(l, "")
-			l = strings.TrimPrefix(l, "github.com/bluenviron/gortsplib/v5")
-			fns = append(fns, l)
+			outer = strings.TrimPrefix(l, "github.com/bluenviron/gortsplib/v5")
 		}
-		if len(fns) == 0 {
+		// a goroutine is identified by the gortsplib function that created it (stable while it runs);
+		// goroutines created elsewhere (the application calling into the library) are not the server's
+		if created == "" {
 			continue
 		}
-		if strings.Contains(fns[len(fns)-1], "main.") {
-			continue
-		}
-		out[strings.Join(fns, "<")]++
+		_ = outer
+		out[created]++
 	}
 	return out
 }
@@ -415,8 +425,8 @@ func childMain(cfgJSON string) {
 		}
 		if cfg.Mcast {
 			srv.MulticastIPRange = "224.1.0.0/16"
-			srv.MulticastRTPPort = 8002
-			srv.MulticastRTCPPort = 8003
+			srv.MulticastRTPPort = 10000 + 2*(os.Getpid()%4000)
+			srv.MulticastRTCPPort = srv.MulticastRTPPort + 1
 		}
 		if cfg.TLS {
 			srv.TLSConfig = &tls.Config{Certificates: []tls.Certificate{selfSignedCert()}}
@@ -444,7 +454,7 @@ func childMain(cfgJSON string) {
 	feedDone := make(chan struct{})
 	go func() {
 		defer close(feedDone)
-		t := time.NewTicker(10 * time.Millisecond)
+		t := time.NewTicker(5 * time.Millisecond)
 		defer t.Stop()
 		seq := uint16(0)
 		for {
@@ -465,7 +475,7 @@ func childMain(cfgJSON string) {
 		}
 	}()
 
-	stats := func() childStats {
+	stats := func(full bool) childStats {
 		c.mu.Lock()
 		st := childStats{
 			ConnOpen: c.connOpen, ConnClose: c.connClose, SessOpen: c.sessOpen, SessClose: c.sessClose,
@@ -476,7 +486,9 @@ func childMain(cfgJSON string) {
 		st.Conns, st.Sessions, st.HTTPRead, st.UDPRTP, st.UDPRTCP = sc.Conns, sc.Sessions, sc.HTTPReadChannels, sc.UDPRTPClients, sc.UDPRTCPClients
 		tc := stream.VerifCounts()
 		st.Readers, st.Active, st.McastCount, st.McastWr = tc.Readers, tc.ActiveUnicastReaders, tc.MulticastReaderCount, tc.MulticastWriters
-		st.Goroutines = goroutineSignatures()
+		if full {
+			st.Goroutines = goroutineSignatures()
+		}
 		st.NumGo = runtime.NumGoroutine()
 		return st
 	}
@@ -494,7 +506,10 @@ func childMain(cfgJSON string) {
 	for in.Scan() {
 		switch strings.TrimSpace(in.Text()) {
 		case "S":
-			b, _ := json.Marshal(stats())
+			b, _ := json.Marshal(stats(true))
+			say(string(b))
+		case "C":
+			b, _ := json.Marshal(stats(false))
 			say(string(b))
 		case "Q":
 			close(stopFeed)
@@ -507,7 +522,7 @@ func childMain(cfgJSON string) {
 			}()
 			select {
 			case <-done:
-				st := stats()
+				st := stats(true)
 				keys := make([]string, 0, len(st.Goroutines))
 				for k := range st.Goroutines {
 					keys = append(keys, k)
